@@ -769,7 +769,7 @@ func c10idOracle(c *Case, impl string) *Viol {
 	if want, ok := c10Official[c.Req]; ok {
 		f := strings.Split(impl, " ")
 		if len(f) != 4 || (want.id != "" && f[1] != want.id) || (want.phstr != "\x00" && f[3] != hxs(want.phstr)) {
-			return &Viol{What: "official vector: expected id " + want.id + " placeholder string " + strconv.Quote(want.phstr), Want: want.id + " " + hxs(want.phstr)}
+			return &Viol{Key: "c10:official-vector:" + want.phstr, What: "official vector: expected id " + want.id + " placeholder string " + strconv.Quote(want.phstr), Want: want.id + " " + hxs(want.phstr)}
 		}
 	}
 	if !strings.HasPrefix(impl, "OK ") {
@@ -848,6 +848,8 @@ func genC10id(g *G) {
 		[]string{"setName", "setMembers"}, "135956960462609535", "The set of {SET_NAME} is {{XXX}, ...}.")
 	fixed("", "The number of eggs you need.", "\n{plural $eggs}\n  {case 1}You have one egg\n  {default}You have {$eggs} eggs\n{/plural}",
 		[]string{"eggs"}, "176798647517908084", "{EGGS_1,plural,=1{You have one egg}other{You have {EGGS_2} eggs}}")
+	// examples_extracted.xlf of closure-templates, the message of features.soy with a print inside a tag
+	fixed("", "Link to Labs", "Click <a href=\"{$labsUrl}\">here</a> to access Labs.", []string{"labsUrl"}, "5539341884085868292", "Click {START_LINK}here{END_LINK} to access Labs.")
 	for _, t := range []struct {
 		body   string
 		params []string
@@ -872,6 +874,27 @@ func genC10id(g *G) {
 		{"{$x_1}{$a.x}{$b.x}{$x_2}{$x_3}", []string{"a", "b", "x_1", "x_2", "x_3"}, "{X_1}{X_4}{X_5}{X_2}{X_3}"},
 	} {
 		fixed("", "", t.body, t.params, "", t.phstr)
+	}
+	// placeholder names of camelCase identifiers by the official rule (BaseUtils.convertToUpperUnderscore: strip
+	// leading/trailing underscores, collapse runs of them, insert '_' at EVERY word boundary found on the string as
+	// it stands - letter|Upper+lower, letter|digit, digit|letter - by look-around, then upper-case), computed here
+	idents := []string{"timeToLive", "numOfItems", "isMyId", "aBcDe", "userID2name", "fooBar", "fooBarBaz", "aB", "aBc", "xY1z", "a1b2c3", "HTMLParser", "parseHTML5Doc", "getXAndY", "iPhone6sPlus", "x", "URL", "myURLIsOk", "a_bC_dE", "__leading_", "aaBbCc", "oneTwoThreeFourFive", "i18nKey", "is2ndTry", "toA"}
+	for i := 0; i < 40; i++ {
+		var sb strings.Builder
+		for k, n := 0, 2+g.R.Intn(5); k < n; k++ {
+			w := []string{"a", "to", "is", "my", "id", "of", "url", "item", "x", "html", "ok"}[g.R.Intn(11)]
+			if k > 0 {
+				w = strings.ToUpper(w[:1]) + w[1:]
+			}
+			sb.WriteString(w)
+			if g.R.Intn(5) == 0 {
+				sb.WriteString(strconv.Itoa(g.R.Intn(30)))
+			}
+		}
+		idents = append(idents, sb.String())
+	}
+	for _, id := range idents {
+		fixed("", "", "{$"+id+"}", []string{id}, "", "{"+officialUpperUnderscore(id)+"}")
 	}
 
 	n := g.N(10000, 150000)
@@ -918,4 +941,27 @@ func genC10id(g *G) {
 		// the generator is supposed to produce compilable files; make a broken generator visible
 		g.Add(Case{Req: req("msgid", "-", "-", "-", "0", "0"), Class: "generator-broken: " + itoa(skipped) + " of " + itoa(n) + " files rejected", Note: "generator"})
 	}
+}
+
+// officialUpperUnderscore: the naming rule of the reference implementation, boundaries by look-around.
+func officialUpperUnderscore(s string) string {
+	s = strings.Trim(s, "_")
+	for strings.Contains(s, "__") {
+		s = strings.ReplaceAll(s, "__", "_")
+	}
+	isL := func(b byte) bool { return b >= 'a' && b <= 'z' || b >= 'A' && b <= 'Z' }
+	isU := func(b byte) bool { return b >= 'A' && b <= 'Z' }
+	isLo := func(b byte) bool { return b >= 'a' && b <= 'z' }
+	isD := func(b byte) bool { return b >= '0' && b <= '9' }
+	var b strings.Builder
+	for i := 0; i < len(s); i++ {
+		if i > 0 {
+			p, c := s[i-1], s[i]
+			if isL(p) && isU(c) && i+1 < len(s) && isLo(s[i+1]) || isL(p) && isD(c) || isD(p) && isL(c) {
+				b.WriteByte('_')
+			}
+		}
+		b.WriteByte(s[i])
+	}
+	return strings.ToUpper(b.String())
 }
